@@ -32,7 +32,7 @@ use std::net::{IpAddr, Ipv4Addr, Ipv6Addr, SocketAddr, SocketAddrV6};
 
 pub fn saddr(kind: u8, i: usize) -> SocketAddr {
     match kind {
-        0 => SocketAddr::new(IpAddr::V4(Ipv4Addr::new(10, 1, (i / 250) as u8, (i % 250 + 1) as u8)), 5000),
+        0 => SocketAddr::new(IpAddr::V4(Ipv4Addr::new(10, 1 + (i / 62_500) as u8, (i / 250 % 250) as u8, (i % 250 + 1) as u8)), 5000),
         1 => SocketAddr::new(IpAddr::V4(Ipv4Addr::new(10, 0, 0, 2)), 1024 + i as u16),
         2 => SocketAddr::new(IpAddr::V6(Ipv6Addr::new(0x2001, 0xdb8, 0, 0, 0, 0, (i >> 16) as u16, i as u16)), 5000),
         3 => SocketAddr::V6(SocketAddrV6::new("fe80::1".parse().unwrap(), 5000, 0, i as u32 + 1)),
